@@ -103,6 +103,7 @@ type FuncSpec struct {
 	Lets      []LetDef
 	Trusted   bool
 	NilRecv   bool // the method is specified for a nil receiver too
+	Refines   []string // interface methods ("Iface.Method") whose contract this method must satisfy
 	Inline    bool
 	Pure      bool
 	Props     []string
@@ -129,6 +130,7 @@ type PkgSpec struct {
 	Ifaces  map[string]*FuncSpec // "Iface.Method"
 	Externs map[string]*FuncSpec // "pkgpath.Func" or "pkgpath.Type.Method"
 	Ghosts  map[string]string    // ghost field name ("$x") -> Go type text
+	Models  map[string]*Clause   // "Type.$x" -> defining expression over `self` (abstraction function)
 	Files   []string
 }
 
@@ -162,7 +164,7 @@ func parseContractFile(path string, pkgPath string, ps *PkgSpec) error {
 		lines = append(lines, rawLine{t, path, i + 1})
 	}
 	// merge continuation lines
-	kw := regexp.MustCompile(`^(func|iface|extern|global|ghost|pred|arith|requires|ensures|assigns|decreases|loop|let|trusted|nilrecv|inline|pure|props|hint|assert|params|results)\b`)
+	kw := regexp.MustCompile(`^(func|iface|extern|global|ghost|model|pred|arith|requires|ensures|assigns|decreases|loop|let|trusted|nilrecv|refines|inline|pure|props|hint|assert|params|results)\b`)
 	var merged []rawLine
 	for _, l := range lines {
 		if !kw.MatchString(l.text) && len(merged) > 0 {
@@ -217,6 +219,18 @@ func parseContractFile(path string, pkgPath string, ps *PkgSpec) error {
 			}
 			ps.Globals = append(ps.Globals, &Clause{Kind: "global", E: e, Text: rest, File: filepath.Base(l.file), Line: l.line})
 			cur = nil
+		case "model":
+			k := strings.Index(rest, "=")
+			if k < 0 {
+				return fail(l, "model Type.$name = expr")
+			}
+			key := strings.TrimSpace(rest[:k])
+			ex, err := ParseExpr(rest[k+1:])
+			if err != nil {
+				return fail(l, "%v", err)
+			}
+			ps.Models[key] = &Clause{Kind: "model", E: ex, Text: strings.TrimSpace(rest[k+1:]), File: filepath.Base(l.file), Line: l.line}
+			cur = nil
 		case "ghost":
 			f := strings.Fields(rest)
 			if len(f) != 2 || !strings.HasPrefix(f[0], "$") {
@@ -268,6 +282,8 @@ func parseContractFile(path string, pkgPath string, ps *PkgSpec) error {
 				cur.Trusted = true
 			case "nilrecv":
 				cur.NilRecv = true
+			case "refines":
+				cur.Refines = append(cur.Refines, strings.Fields(strings.ReplaceAll(rest, ",", " "))...)
 			case "inline":
 				cur.Inline = true
 			case "pure":
@@ -370,7 +386,7 @@ func parseContractFile(path string, pkgPath string, ps *PkgSpec) error {
 }
 
 func newPkgSpec(path string) *PkgSpec {
-	return &PkgSpec{Path: path, Preds: map[string]*Pred{}, Funcs: map[string]*FuncSpec{}, Ifaces: map[string]*FuncSpec{}, Externs: map[string]*FuncSpec{}, Ghosts: map[string]string{}}
+	return &PkgSpec{Path: path, Preds: map[string]*Pred{}, Funcs: map[string]*FuncSpec{}, Ifaces: map[string]*FuncSpec{}, Externs: map[string]*FuncSpec{}, Ghosts: map[string]string{}, Models: map[string]*Clause{}}
 }
 
 func (ps *PkgSpec) sortedFuncKeys() []string {
